@@ -1,4 +1,4 @@
-        use self::broadcaster::QueryBroadcaster;
+        use self::broadcaster::{EventBroadcaster, QueryBroadcaster};
         use self::sender::{RecycledFuture, Sender};
         use crate::channel::SendError;
         use std::collections::BTreeMap;
@@ -257,6 +257,117 @@
             None
         }
 
+        // ---------------------------------------------------------------- event broadcast (last sentence of C17)
+        #[derive(Clone)]
+        struct EvScripted {
+            id: u32,
+            accept: [bool; 2],
+            pend: [bool; 2],
+            gate: Arc<Gate>,
+            cur_q: Arc<AtomicUsize>,
+            log: Arc<Mutex<Vec<(u32, u32)>>>, // (connection, event) in the order the recipients got them
+        }
+        struct EvFut {
+            id: u32,
+            ev: u32,
+            pend: bool,
+            gate: Arc<Gate>,
+            log: Arc<Mutex<Vec<(u32, u32)>>>,
+        }
+        impl Future for EvFut {
+            type Output = Result<(), SendError>;
+            fn poll(self: Pin<&mut Self>, cx: &mut Context<'_>) -> Poll<Self::Output> {
+                if !self.pend || self.gate.open.load(Ordering::SeqCst) {
+                    self.log.lock().unwrap().push((self.id, self.ev));
+                    Poll::Ready(Ok(()))
+                } else {
+                    *self.gate.waker.lock().unwrap() = Some(cx.waker().clone());
+                    Poll::Pending
+                }
+            }
+        }
+        impl Sender<u32, ()> for EvScripted {
+            fn send(&mut self, arg: &u32) -> Option<RecycledFuture<'_, Result<(), SendError>>> {
+                let q = self.cur_q.load(Ordering::SeqCst);
+                if !self.accept[q] {
+                    return None;
+                }
+                Some(RecycledFuture(Box::pin(EvFut { id: self.id, ev: *arg, pend: self.pend[q], gate: self.gate.clone(), log: self.log.clone() })))
+            }
+            fn box_clone(&self) -> Box<dyn Sender<u32, ()>> {
+                Box::new(self.clone())
+            }
+        }
+        fn run_events(sc: &Sc) -> Option<Fail> {
+            let cur_q = Arc::new(AtomicUsize::new(0));
+            let log: Arc<Mutex<Vec<(u32, u32)>>> = Arc::new(Mutex::new(Vec::new()));
+            let gates: Vec<Arc<Gate>> = (0..sc.n).map(|_| Arc::new(Gate { open: AtomicBool::new(false), waker: Mutex::new(None) })).collect();
+            let mut bc: EventBroadcaster<u32> = EventBroadcaster::default();
+            for i in 0..sc.n {
+                let accept = [sc.q[0].accept[i], sc.q.get(1).map(|q| q.accept[i]).unwrap_or(false)];
+                let pend = [sc.q[0].pend[i], sc.q.get(1).map(|q| q.pend[i]).unwrap_or(false)];
+                bc.add(Box::new(EvScripted { id: i as u32, accept, pend, gate: gates[i].clone(), cur_q: cur_q.clone(), log: log.clone() }));
+            }
+            let mut expected: Vec<(u32, u32)> = Vec::new();
+            for (qi, q) in sc.q.iter().enumerate() {
+                if q.cancel {
+                    return None; // dropped event broadcasts are not part of this phase
+                }
+                cur_q.store(qi, Ordering::SeqCst);
+                for g in &gates {
+                    g.open.store(false, Ordering::SeqCst);
+                    *g.waker.lock().unwrap() = None;
+                }
+                let ev = 50 + qi as u32;
+                let flag = Arc::new(Flag(AtomicUsize::new(0)));
+                let waker = Waker::from(flag.clone());
+                let mut cx = Context::from_waker(&waker);
+                let mut fut = Box::pin(bc.broadcast(ev));
+                let mut seen = 0usize;
+                let mut done = matches!(fut.as_mut().poll(&mut cx), Poll::Ready(_));
+                let mut opened = 0;
+                for (k, i) in q.order.iter().enumerate() {
+                    if done {
+                        return Some(("event-broadcast-returns-only-after-every-recipient-got-the-event", "C17", format!("event #{}: the broadcast returned although {} recipient(s) had not taken the event yet", qi, q.order.len() - opened)));
+                    }
+                    gates[*i].open.store(true, Ordering::SeqCst);
+                    opened += 1;
+                    match gates[*i].waker.lock().unwrap().take() {
+                        Some(w) => w.wake(),
+                        None => return Some(("event-broadcast-polls-every-recipient", "C17", format!("event #{}: recipient {} accepted the event but was never polled", qi, i))),
+                    }
+                    if flag.0.load(Ordering::SeqCst) > seen {
+                        seen = flag.0.load(Ordering::SeqCst);
+                        done = matches!(fut.as_mut().poll(&mut cx), Poll::Ready(_));
+                    } else if k + 1 == q.order.len() {
+                        return Some(("event-broadcast-no-lost-wake-up", "C17", format!("event #{}: every recipient took the event and called its waker, but the broadcast future was not woken", qi)));
+                    }
+                }
+                let mut extra = 0;
+                while !done && extra < 4 && flag.0.load(Ordering::SeqCst) > seen {
+                    seen = flag.0.load(Ordering::SeqCst);
+                    done = matches!(fut.as_mut().poll(&mut cx), Poll::Ready(_));
+                    extra += 1;
+                }
+                if !done {
+                    return Some(("event-broadcast-completes", "C17", format!("event #{}: every recipient took the event; the broadcast is still pending", qi)));
+                }
+                drop(fut);
+                // every accepting recipient got this event exactly once, and after all events sent before it
+                let mut this_round: Vec<(u32, u32)> = (0..sc.n).filter(|i| q.accept[*i]).map(|i| (i as u32, ev)).collect();
+                let got_all = log.lock().unwrap().clone();
+                let mut got_round: Vec<(u32, u32)> = got_all[expected.len().min(got_all.len())..].to_vec();
+                got_round.sort();
+                this_round.sort();
+                if got_all.len() < expected.len() || got_round != this_round {
+                    return Some(("each-recipient-gets-each-event-once-in-sending-order", "C17",
+                        format!("after event #{} (value {}): deliveries (connection, event) so far {:?}; this event should have added exactly {:?}", qi, ev, got_all, this_round)));
+                }
+                expected = got_all;
+            }
+            None
+        }
+
         fn permutations(items: &[usize]) -> Vec<Vec<usize>> {
             if items.len() <= 1 {
                 return vec![items.to_vec()];
@@ -372,6 +483,19 @@
                                 *counts.entry(check).or_insert(0) += 1;
                                 first.entry(check).or_insert((props.to_string(), sc_json(&sc), detail));
                             }
+                            // the same scenario as two EVENT broadcasts (consumption and clones do not apply)
+                            if !on_clone && sc.q[0].consume == Consume::All && !sc.q[0].rewake {
+                                total += 1;
+                                let r = panic::catch_unwind(panic::AssertUnwindSafe(|| run_events(&sc)));
+                                let fl = match r {
+                                    Ok(x) => x,
+                                    Err(_) => Some(("event-broadcast-does-not-panic", "C17", "the event broadcaster panicked".to_string())),
+                                };
+                                if let Some((check, props, detail)) = fl {
+                                    *counts.entry(check).or_insert(0) += 1;
+                                    first.entry(check).or_insert((props.to_string(), sc_json(&sc), detail));
+                                }
+                            }
                         }
                     }
                 }
@@ -380,6 +504,6 @@
                 .iter()
                 .map(|(k, (props, sc, detail))| format!("{{\"check\":\"{}\",\"props\":\"{}\",\"count\":{},\"scenario\":{},\"detail\":{:?}}}", k, props, counts[k], sc, detail))
                 .collect();
-            println!("{{\"scenarios\":{},\"samples\":[{}],\"bound\":\"1..{} connected repliers; per query every accept/filter pattern, every subset of accepting repliers replying late, every completion order of those, with and without a spurious wake-up of a pending replier or a late wake-up of a completed one; first query: replies consumed fully / first only / not at all, or the future dropped after its first poll; then no or one further query (all of them up to {} connections, every 13th above) on the same broadcaster or on a clone; one thread\",\"failures\":[{}]}}",
+            println!("{{\"scenarios\":{},\"samples\":[{}],\"bound\":\"1..{} connected repliers; per query every accept/filter pattern, every subset of accepting repliers replying late, every completion order of those, with and without a spurious wake-up of a pending replier or a late wake-up of a completed one; first query: replies consumed fully / first only / not at all, or the future dropped after its first poll; then no or one further query (all of them up to {} connections, every 13th above) on the same broadcaster or on a clone; the same patterns as one or two EVENT broadcasts (each recipient gets each event once, in sending order; the broadcast returns only after all of them took it); one thread\",\"failures\":[{}]}}",
                 total, samples.join(","), nmax, 3, fs.join(","));
         }
